@@ -390,17 +390,23 @@ def decl_orders(inp, moved, full_upto):
             j = definer.get(nm)
             if j is not None and j != i:
                 need.append((j, i))
+    groups = I.tag_typedef_groups(inp['decls'])
     out = []
+    unspec = []
     rejected = 0
     for p in perms:
         pos = [0] * n
         for k, d in enumerate(p):
             pos[d] = k
-        if all(pos[j] < pos[i] for j, i in need):
-            out.append(p)
-        else:
+        if not all(pos[j] < pos[i] for j, i in need):
             rejected += 1
-    return out, rejected
+        elif any(pos[g[a]] > pos[g[a + 1]] for g in groups for a in range(len(g) - 1)):
+            # several typedef names for one tag: the first typedef owns the structure (documented in
+            # transformer.py); which typedef comes first is input, not irrelevant order
+            unspec.append(p)
+        else:
+            out.append(p)
+    return out, rejected, unspec
 
 
 def block_file_cases(inp):
@@ -468,6 +474,14 @@ def _work_perm(chunk):
             bad = blank_lines(got) != ref_blank
             a, b = ref_blank, blank_lines(got)
             part.outcome('renum-changes-bytes:%s' % (got != ref))
+        elif mode == 'decl-unspec':
+            # executed, must not crash and must be reproducible; the bytes are not compared
+            got = observe(I.execute(inp, decl_order=p))
+            again = observe(I.execute(inp, decl_order=p))
+            bad = got.startswith(b'ERROR: ') or got != again
+            a, b = got, again
+            part.add(unspecified=1, evaluations=1)
+            part.outcome('typedef-order-visible:%s' % (got != ref))
         elif mode == 'blocks':
             got = observe(I.execute(inp, block_order=p))
             bad = got != ref
@@ -517,6 +531,7 @@ MODE_TEXT = {
     'decl-renum': 'apart from source-position line numbers the GIR changes when the declarations are written in another C-admissible order',
     'blocks': 'the GIR changes when the same comment blocks (distinct identifiers) are supplied in another order',
     'blockfiles': 'the GIR changes when the source files containing the comment blocks are supplied in another order',
+    'decl-unspec': 'the scanner fails or is not reproducible when typedefs naming the same tag arrive in another order',
     'dump': 'the GIR changes when the runtime dump lists the same types / properties / signals / interfaces in another order',
 }
 
@@ -591,6 +606,8 @@ def declared_order_problems(inp, root):
 EDITABLE = ('Top-1.0', 'Aa-1.0')
 CACHE_INPUTS = ('deps', 'deps-tie')
 T0 = 1000000000
+T0_NS = T0 * 10 ** 9 + 100000000      # logical clock: T0 + 0.1 s + 0.25 s per tick
+TICK_NS = 250000000
 
 
 def cache_menu(tier):
@@ -634,7 +651,10 @@ def foreign_pickle():
 class CacheWorld(object):
     """Real files: <root>/deps/*.gir, <root>/xdg/g-ir-scanner/<sha1>.  Logical clock instead of
     the wall clock: after every operation the files written by it get the next tick as mtime, so
-    every mtime comparison the implementation makes sees the true order of events."""
+    every mtime comparison the implementation makes sees the true order of events.  A tick is
+    0.25 s from a non-integer base (set in nanoseconds on the real files), so an edit right after a
+    run is strictly later than the entry but mostly within the same whole second.  Two events never
+    share a timestamp (equal mtimes are out of scope)."""
 
     def __init__(self, root):
         self.root = root
@@ -654,9 +674,12 @@ class CacheWorld(object):
         self.all = list(I.GENERATED) + ['GLib-2.0', 'GObject-2.0']
         for n in self.all:
             self.model[n] = 'none'
+        if os.stat(self.path('Top-1.0')).st_mtime_ns != T0_NS:
+            raise HarnessBroken('the file system below %s does not keep sub-second mtimes' % root)
+        self.same_second = 0   # edits that land in the same whole second as the entry they invalidate
 
     def now(self):
-        return T0 + 10 * self.tick
+        return T0_NS + TICK_NS * self.tick
 
     def path(self, n):
         return os.path.join(self.deps, n + '.gir')
@@ -672,7 +695,7 @@ class CacheWorld(object):
             for fn in os.listdir(d):
                 p = os.path.join(d, fn)
                 if os.stat(p).st_mtime > T0 * 1.5:
-                    os.utime(p, (self.now(), self.now()))
+                    os.utime(p, ns=(self.now(), self.now()))
 
     def apply(self, op):
         k = op[0]
@@ -683,6 +706,13 @@ class CacheWorld(object):
             I.write_atomic(self.path(f), I.dep_text(f, self.edition[f]), self.now())
             if self.model[f] == 'fresh':
                 self.model[f] = 'stale'
+                e = self.entry(f)
+                if os.path.exists(e):
+                    em = os.stat(e).st_mtime_ns
+                    if not em < self.now():
+                        raise HarnessBroken('logical clock: edit is not strictly later than the entry')
+                    if em // 10 ** 9 == self.now() // 10 ** 9:
+                        self.same_second += 1
         elif k in ('garbage', 'truncate', 'empty', 'text', 'badglobal'):
             f = op[1]
             e = self.entry(f)
@@ -708,8 +738,8 @@ class CacheWorld(object):
             f = op[1]
             e = self.entry(f)
             if os.path.exists(e):
-                t = os.stat(self.path(f)).st_mtime - 5
-                os.utime(e, (t, t))
+                t = os.stat(self.path(f)).st_mtime_ns - 5 * 10 ** 9
+                os.utime(e, ns=(t, t))
                 if self.model[f] == 'fresh':
                     self.model[f] = 'stale'
         elif k == 'version':
@@ -777,8 +807,8 @@ def run_history(root, hist, expected, inputs, loads=None):
                 w.model[n] = 'fresh'
             if got != want:
                 return ('run at step %d (cache state %s): %s' % (step, dict(zip(w.all, states[-1][1])),
-                                                                 first_diff(want, got)), sha(want), sha(got)), states, nruns
-    return None, states, nruns
+                                                                 first_diff(want, got)), sha(want), sha(got)), states, nruns, w.same_second
+    return None, states, nruns, w.same_second
 
 
 def cache_expected(root, inputs):
@@ -820,8 +850,9 @@ def _work_cache(chunk):
     try:
         for hist in hists:
             del loads[:]
-            problem, states, nruns = run_history(os.path.join(root, 'h'), hist, expected, inputs, loads)
-            part.add(evaluations=nruns, traces_validated_against_impl=nruns, transitions=len(hist), histories=1)
+            problem, states, nruns, same = run_history(os.path.join(root, 'h'), hist, expected, inputs, loads)
+            part.add(evaluations=nruns, traces_validated_against_impl=nruns, transitions=len(hist), histories=1,
+                     stale_entries_within_the_same_second=same)
             for s in states:
                 part.outcome('cache-state:%r' % (s,))
                 part.nontrivial('cache:%r' % (s,))
@@ -971,8 +1002,10 @@ def run(ctx):
     chunks = []
     rejected = 0
     for inp in inputs:
-        orders, rej = decl_orders(inp, b['decl_moved'], b['decl_full'])
+        orders, rej, unspec = decl_orders(inp, b['decl_moved'], b['decl_full'])
         rejected += rej
+        if unspec:
+            chunks.append((inp['name'], 'decl-unspec', list(enumerate(unspec))))
         items = list(enumerate(orders))
         for mode in ('decl-fixed', 'decl-renum'):
             for sl in chunked(items, max(1, len(items) // 400)):
@@ -1052,6 +1085,8 @@ def run(ctx):
         for k in ('none', 'fresh', 'stale', 'corrupt'):
             if "'%s'" % k in st:
                 kinds.add(k)
+    if want('cache') and ctx.cov.get('stale_entries_within_the_same_second', 0) < 2:
+        raise HarnessBroken('vacuous: no history edits a dependency within the same second as its cache entry')
     if kinds != {'none', 'fresh', 'stale', 'corrupt'} and want('cache'):
         raise HarnessBroken('cache histories did not reach every entry state: %r' % sorted(kinds))
     if ctx.cov.get('cache_hits', 0) == 0 and not ctx.violations:
@@ -1082,10 +1117,11 @@ def run(ctx):
     ctx.assumptions += [
         'quantification is over symbol trees and comment texts (what the C lexer hands to Python), see DESIGN.md 1.1',
         'a permutation of declarations is considered only if every typedef name defined in the input is defined before it is used (valid C)',
+        'when several typedefs name one struct/union tag the first typedef owns the structure (documented in transformer.py): orders that change which typedef comes first are executed but classified UNSPECIFIED; the position of the body among them is MUST-equal',
         'comment blocks have pairwise distinct identifiers ("last block wins" for duplicates is documented and order-dependent by design)',
         'the order of diagnostics on stderr is not part of the statement: runs whose GIR is identical but whose warnings are reordered are counted as unspecified',
         'a cache entry is corrupt if pickle.load cannot rebuild a parser from it (binary garbage, text, empty file, truncated pickle, pickle of a class that cannot be imported); an entry that unpickles to a foreign object is outside the alphabet',
-        'cache timestamps use a logical clock (mtimes set by the harness after each operation in event order)',
+        'cache timestamps use a logical clock (mtimes set in nanoseconds by the harness after each operation in event order, 0.25 s apart from a non-integer base; two events never share a timestamp)',
         'vt/choice.py, vt/scan/fake.py (stub C scanner module) and the miniature/generated dependency GIRs are trusted',
     ]
     if len(ctx._outcomes) < 8 and not only:
@@ -1108,11 +1144,12 @@ def replay(ctx, case):
         try:
             expected = cache_expected(root, inputs)
             hist = [tuple(o) for o in case['history']]
-            problem, states, nruns = run_history(os.path.join(root, 'h'), hist, expected, inputs)
+            problem, states, nruns, same = run_history(os.path.join(root, 'h'), hist, expected, inputs)
         finally:
             shutil.rmtree(root, ignore_errors=True)
         print('history:', hist)
         print('cache states before each run:', states)
+        print('edits within the same whole second as the entry they invalidate:', same)
         print('result:', problem[0] if problem else 'every run equals the cache-disabled GIR')
         return problem is None
     if kind in ('sibling-order', 'declared-order'):
@@ -1162,10 +1199,15 @@ def replay(ctx, case):
             shas.setdefault(d[inp['name']], []).append(s)
         print('GIR sha by real PYTHONHASHSEED (no ChoiceSet involved):', shas)
         return a == b
-    if kind in ('decl-fixed', 'decl-renum', 'blocks'):
+    if kind in ('decl-fixed', 'decl-renum', 'blocks', 'decl-unspec'):
         ref = observe(I.execute(inp))
         p = case['order']
-        if kind == 'decl-fixed':
+        if kind == 'decl-unspec':
+            got = observe(I.execute(inp, decl_order=p))
+            ref = observe(I.execute(inp, decl_order=p))
+            if got.startswith(b'ERROR: '):
+                ref = b''
+        elif kind == 'decl-fixed':
             got = observe(I.execute(inp, decl_order=p))
         elif kind == 'decl-renum':
             got = blank_lines(observe(I.execute(inp, decl_order=p, renumber=True)))
